@@ -276,8 +276,10 @@ class YP(object):
         self.ATOM_NIL = self.atom("[]")
         self.ATOM_DOT = "."
         self._set_default_eval_context()
-        self._set_builtin_predicates()
+        # only the names of the API functions are reserved, not the keys under which
+        # predicates (built-in or user defined) are registered
         self.eval_blacklist = list(self.eval_context.keys())
+        self._set_builtin_predicates()
 
     def _set_default_eval_context(self):
         self.eval_context = {
